@@ -1007,6 +1007,17 @@ def install_modular(it, db, classmap, root_class, leftovers=None):
     keeps the analysis modular); otherwise the callee is inlined and checked against whatever the schema has there."""
     leftovers = leftovers or {}
     prev = getattr(it, 'summary_hook', None)
+    # a deserialiser that looks at what is left in the slice (remaining_bits / remaining_refs / the raw containers) behaves differently
+    # depending on what follows the value: it cannot be summarised as "consumes one value of its type", callers analyse it inline
+    sensitive = getattr(it.prog, '_ctx_sensitive', None)
+    if sensitive is None:
+        sensitive = set()
+        for cname in classmap:
+            c = it.prog.classes.get(cname)
+            oc, fn = it.prog.find_method(c, 'deserialize') if c is not None else (None, None)
+            if fn is not None and any(isinstance(n, ast.Attribute) and n.attr in ('remaining_bits', 'remaining_refs', 'ref_offset') for n in ast.walk(fn)):
+                sensitive.add(cname)
+        it.prog._ctx_sensitive = sensitive
 
     def hook(f, args, kw):
         if f.cls is not None and f.cls.name == 'Slice' and args and isinstance(args[0], AbsSlice):
@@ -1020,7 +1031,7 @@ def install_modular(it, db, classmap, root_class, leftovers=None):
                 i = sl.first('bits')
                 if i is not None:
                     t = sl.toks[i]
-                    if t.kind == 'TYPE' and t.t == info['type'] and not (cls.name == root_class and it.depth == 0) and cls.name not in INLINE:
+                    if t.kind == 'TYPE' and t.t == info['type'] and not (cls.name == root_class and it.depth == 0) and cls.name not in INLINE and cls.name not in sensitive:
                         # natural-number type arguments: what the code passes down must be what the schema says at this point
                         want = [a for a in t.args if isinstance(a, int)]
                         have = [a.v for a in args[2:] if isinstance(a, K) and isinstance(a.v, int) and not isinstance(a.v, bool)]
